@@ -546,6 +546,8 @@ class Signatures(Stream):
         model = _cfg.unwire(results[0].args['sigs'])
         for n_ in case['functions']:
             if n_ not in out:
+                if n_.startswith('_'):
+                    continue          # a private helper may be renamed or removed at will: not part of the correspondence
                 return 'emd.sift.%s no longer exists' % n_
             if LEGACY and n_ == 'get_mask_freqs':
                 continue
